@@ -96,7 +96,7 @@ def join(scen, recs, root_id, cfg, taskset=None, env=None):
             raise Machinery("record/scenario id mismatch")
         if r.get("outcome") == "driver-error":
             raise Machinery("hash driver error: %s" % r.get("err"))
-        j = {"id": s["id"], "root": root_id, "files": s["files"], "list": s["list"], "vanish": s.get("vanish", []),
+        j = {"id": s["id"], "root": root_id, "files": s["files"], "list": s["list"], "vanish": s.get("vanish", []), "churn": s.get("churn", []),
              "gated": bool(s.get("gated")), "order": s.get("order", []),
              "outs": [{"outcome": o["outcome"], "digest": o.get("digest", ""), "n": o.get("n", 1)} for o in r.get("outs", [])],
              "leak": r.get("leak", 0), "outcome": r.get("outcome", "ok"), "feasible": r.get("feasible", True),
@@ -164,7 +164,7 @@ def tla_rec(r):
     for p in r["list"]:
         f = fm.get(p, {"k": "absent", "c": ""})
         ents.append({"p": p, "k": "vanish" if p in r.get("vanish", []) else f["k"], "c": f.get("c", "")})
-    return {"id": r["id"], "root": r["root"], "ents": ents, "gated": r["gated"], "feasible": r["feasible"],
+    return {"id": r["id"], "root": r["root"], "ents": ents, "gated": r["gated"], "feasible": r["feasible"], "churn": bool(r.get("churn")),
             "outs": [{"outcome": o["outcome"], "digest": o["digest"]} for o in r["outs"]], "leak": r["leak"], "outcome": r["outcome"]}
 
 
@@ -181,11 +181,11 @@ def c04_scenarios(tier, seed):
     rnd = random.Random(seed)
     if tier == "quick":
         paths = ["a", "ab", "b", "d/a"]
-        contents = ["x", "y", ""]
+        contents = ["x", "b", ""]
         maxlen, reps = 3, 2
     else:
         paths = ["a", "ab", "b", "d/a", "d/ab", "e"]
-        contents = ["x", "y", "xa", "ax", ""]
+        contents = ["x", "y", "b", "ax", ""]
         maxlen, reps = 3, 2
     entries = paths + ["d"]
     fss = []
@@ -360,7 +360,7 @@ def confirm_and_report(ctx, driver, rel, rs):
     root = os.path.join(ctx.scratch, "confirm%d" % random.getrandbits(30), "r")
     scen = []
     for k, r in enumerate(rs):
-        scen.append({"id": k + 1, "files": r["files"], "list": r["list"], "vanish": r.get("vanish", []), "gated": r.get("gated", False),
+        scen.append({"id": k + 1, "files": r["files"], "list": r["list"], "vanish": r.get("vanish", []), "churn": r.get("churn", []), "gated": r.get("gated", False),
                      "order": r.get("order", []), "reps": 5, "trace": False})
     ts, env = rs[0].get("taskset"), rs[0].get("env")          # same CPU / GOMAXPROCS setting as the original observation
     again = join(scen, drive(ctx, driver, root, scen, taskset=ts, env=env), 0, "confirm", ts, env)
@@ -431,6 +431,11 @@ def c18_scenarios(tier, seed):
     add(base, ["m", "d", "f0"])
     add(base, ["m", "m", "m", "m"])
     add(base, ["l"] * (ncpu + 1))
+    # files that vanish and reappear at arbitrary moments (between open, stat and read) while the pool is running
+    for n in (1, 3, 8, ncpu + 3):
+        lst = [good[i % 6] for i in range(n)]
+        sid[0] += 1
+        scen.append({"id": sid[0], "files": base, "list": lst, "vanish": [], "churn": sorted(set(lst)), "reps": 60 if tier == "quick" else 600, "trace": False})
     big = [{"p": "big/f%05d" % i, "k": "reg", "c": "%d" % (i % 7)} for i in range(10000)]
     bigscen = [{"id": 900001, "files": big, "list": [f["p"] for f in big], "reps": 2 if tier == "quick" else 5},
                {"id": 900002, "files": big + [{"p": "m", "k": "absent", "c": ""}],
